@@ -1349,8 +1349,11 @@ pub struct AddressAssignment {
 }
 
 lazy_static! {
-    static ref DIRECT_ADDRESS_UNASSIGNED: Regex = Regex::new(r"%([IQM])\*").unwrap();
-    static ref DIRECT_ADDRESS: Regex = Regex::new(r"%([IQM])([XBWDL])?(\d(\.\d)*)").unwrap();
+    // The location and size prefixes are not case sensitive (the same as the
+    // tokens) and each part of the address can have any number of digits.
+    static ref DIRECT_ADDRESS_UNASSIGNED: Regex = Regex::new(r"^%([IQMiqm])\*$").unwrap();
+    static ref DIRECT_ADDRESS: Regex =
+        Regex::new(r"^%([IQMiqm])([XBWDLxbwdl])?([0-9]+(\.[0-9]+)*)$").unwrap();
 }
 
 impl TryFrom<&str> for AddressAssignment {
@@ -1358,7 +1361,7 @@ impl TryFrom<&str> for AddressAssignment {
 
     fn try_from(value: &str) -> Result<Self, Self::Error> {
         if let Some(cap) = DIRECT_ADDRESS_UNASSIGNED.captures(value) {
-            let location_prefix = LocationPrefix::try_from(&cap[1])?;
+            let location_prefix = LocationPrefix::try_from(cap[1].to_uppercase().as_str())?;
             return Ok(AddressAssignment {
                 location: location_prefix,
                 size: SizePrefix::Unspecified,
@@ -1368,12 +1371,19 @@ impl TryFrom<&str> for AddressAssignment {
         }
 
         if let Some(cap) = DIRECT_ADDRESS.captures(value) {
-            let location_prefix = LocationPrefix::try_from(&cap[1])?;
-            let size_prefix = SizePrefix::try_from(&cap[2])?;
-            let pos: Vec<u32> = cap[3]
-                .split('.')
-                .map(|v| v.parse::<u32>().unwrap())
-                .collect();
+            let location_prefix = LocationPrefix::try_from(cap[1].to_uppercase().as_str())?;
+            // The size prefix is optional
+            let size_prefix = match cap.get(2) {
+                Some(size) => SizePrefix::try_from(size.as_str().to_uppercase().as_str())?,
+                None => SizePrefix::Nil,
+            };
+            let mut pos: Vec<u32> = Vec::new();
+            for part in cap[3].split('.') {
+                pos.push(
+                    part.parse::<u32>()
+                        .map_err(|_| "Address is out of range")?,
+                );
+            }
 
             return Ok(AddressAssignment {
                 location: location_prefix,
